@@ -7,6 +7,7 @@ import MinterModel.BeginBlock
 import MinterModel.Rules
 import MinterModel.OrdersQ
 import MinterModel.ValidQ
+import MinterModel.Genesis
 /-
   Dispatcher over every component's `Q` evaluator.  A component adds one line here.
 -/
@@ -23,5 +24,6 @@ def evalQ (fn : String) (args : List String) : Option String :=
   <|> Rules.rulesEvalQ fn args
   <|> ordersEvalQ fn args
   <|> validEvalQ fn args
+  <|> exportEvalQ fn args
 
 end Minter
